@@ -1224,7 +1224,8 @@ def check(run):
             m_refused = None
         if shift:
             run.dist("resumed: restarted from other coordinates (%s)" % ("refused" if want_refused else "accepted"))
-        if bool(recs2[0]["err"]) != want_refused:
+        other_cfg = bool(c.get("resume_cfg")) and not shift       # (with other parameters the first step may legitimately raise the reflection error)
+        if bool(recs2[0]["err"]) != want_refused and not other_cfg:
             if want_refused:
                 run.violation("resume:wrong-state-accepted", "the restarted job computes %r at the restart step, the state file has %r (difference above width/2 = %r): accepted"
                               % (cs["events"][K - 1]["x"], xs, c["width"] / 2), rep)
@@ -1232,7 +1233,7 @@ def check(run):
                 run.violation("resume:refused", "state saved after engine step %d (absolute step %d, variable %s) and resumed with coordinates giving %r at the first evaluation (saved value %r, width %r): the restart is refused"
                               % (K - 1, aw[K - 1][1], "awake" if aw[K - 1][2] else "asleep", cs["events"][K - 1]["x"], xs, c["width"]), rep)
             continue
-        if m_refused is not None and m_refused != bool(recs2[0]["err"]) and aw[K - 1][2]:
+        if m_refused is not None and m_refused != bool(recs2[0]["err"]) and aw[K - 1][2] and not other_cfg:
             run.mismatch("restart:refused", {"scenario": scn, "model_case": rlines[n_]}, recs2[0]["err"], m_refused)
             continue
         if want_refused:
